@@ -26,6 +26,7 @@ Definition mem_ping : bytes := [80;105;110;103].  (* "Ping" *)
 Definition mem_getmid : bytes := [71;101;116;77;97;99;104;105;110;101;73;100].  (* "GetMachineId" *)
 Definition mem_noc : bytes := [78;97;109;101;79;119;110;101;114;67;104;97;110;103;101;100].  (* "NameOwnerChanged" *)
 Definition mem_request : bytes := [82;101;113;117;101;115;116;78;97;109;101].  (* "RequestName" *)
+Definition mem_release : bytes := [82;101;108;101;97;115;101;78;97;109;101].  (* "ReleaseName" *)
 Definition mem_lost : bytes := [78;97;109;101;76;111;115;116].  (* "NameLost" *)
 Definition mem_acquired : bytes := [78;97;109;101;65;99;113;117;105;114;101;100].  (* "NameAcquired" *)
 Definition err_failed : bytes := [111;114;103;46;102;114;101;101;100;101;115;107;116;111;112;46;68;66;117;115;46;69;114;114;111;114;46;70;97;105;108;101;100].  (* "org.freedesktop.DBus.Error.Failed" *)
@@ -172,7 +173,8 @@ Record bus := mkBus {
   b_major : Z;                              (* static int next_major_number *)
   b_minor : Z;                              (* static int next_minor_number *)
   b_conns : list (conn * option bytes);     (* live connections with BusConnectionData.name (NULL until Hello) *)
-  b_reg : list bytes;                       (* names in the registry that begin with ':' *)
+  b_reg : list (bytes * list conn);         (* the registry's entries for names that begin with ':': name, owner queue
+                                               (BusService.owners, primary owner first) *)
   b_owned : list (bytes * bytes);           (* well-known names the model saw being granted: name, owner's unique name *)
   b_held : list held                        (* pending auto-activation entries, in arrival order *)
 }.
@@ -203,8 +205,23 @@ Definition name_of (b : bus) (c : conn) : option bytes :=
   match lookup c (b_conns b) with Some (Some n) => Some n | _ => None end.
 
 (* bus_registry_lookup (registry, name) != NULL, as far as the model knows *)
+Definition reg_names (b : bus) : list bytes := map fst (b_reg b).
+
 Definition is_owned (b : bus) (d : bytes) : bool :=
-  existsb (fun kv => bytes_eqb d (fst kv)) (b_owned b) || existsb (bytes_eqb d) (b_reg b).
+  existsb (fun kv => bytes_eqb d (fst kv)) (b_owned b) || existsb (bytes_eqb d) (reg_names b).
+
+(* bus_registry_lookup + bus_service_get_primary_owners_connection for a name beginning with ':' *)
+Definition resolve (b : bus) (d : bytes) : option conn :=
+  match find (fun e => bytes_eqb d (fst e)) (b_reg b) with
+  | Some (_, c :: _) => Some c
+  | _ => None
+  end.
+
+(* bus_connection_disconnected: the connection leaves every owner queue it is in
+   (bus_service_remove_owner); a service without owners is removed from the registry *)
+Definition reg_drop (c : conn) (r : list (bytes * list conn)) : list (bytes * list conn) :=
+  filter (fun e => match snd e with [] => false | _ => true end)
+         (map (fun e => (fst e, filter (fun k => negb (k =? c)) (snd e))) r).
 
 (* dbus_connection_get_is_connected (entry->connection) *)
 Definition still_there (b : bus) (h : held) : bool :=
@@ -220,8 +237,14 @@ Inductive origin :=
 | ODriver                 (* built by the bus driver *)
 | OLocal.                 (* built by libdbus on the daemon's end of the connection, outside the bus code *)
 
+(* who bus_dispatch found to be the addressed recipient *)
+Inductive addressee :=
+| AUnknown                (* DESTINATION is absent or a well-known name: not this model's business *)
+| ANobody                 (* DESTINATION begins with ':' and the registry has no such name *)
+| ATo (r : conn).         (* DESTINATION begins with ':' and r is that name's primary owner *)
+
 Inductive scope :=
-| SRouted (c : conn)      (* bus_dispatch_matches with sender c: addressed recipient, match rules (+ monitors) *)
+| SRouted (c : conn) (a : addressee)  (* bus_dispatch_matches with sender c: addressed recipient, match rules (+ monitors) *)
 | SMonitors               (* bus_transaction_capture only *)
 | SMatches (c : conn)     (* bus_dispatch_matches with sender c and no addressed recipient, for a message
                              that was captured before: match-rule holders only *)
@@ -295,10 +318,10 @@ Section Bus.
     if max_completed <=? n_completed b then
       Ok b [TEmit (OClient c) SMonitors m; error_reply b c m err_limits]              (* bus_connections_check_limits *)
     else
-      match mint (S (length (b_reg b))) (b_reg b) (b_major b) (b_minor b) with
+      match mint (S (length (reg_names b))) (reg_names b) (b_major b) (b_minor b) with
       | inl f => Fault f
       | inr (name, mj, mn) =>
-          let b' := mkBus mj mn (set_name c name (b_conns b)) (name :: b_reg b) (b_owned b) (b_held b) in   (* bus_connection_complete, bus_registry_ensure *)
+          let b' := mkBus mj mn (set_name c name (b_conns b)) ((name, [c]) :: b_reg b) (b_owned b) (b_held b) in   (* bus_connection_complete, bus_registry_ensure *)
           let m' := set_sender m name in                                              (* dbus_message_set_sender (message, name) *)
           Ok b' [ TIssue c name;
                   TEmit (OClient c) SMonitors m';
@@ -325,6 +348,20 @@ Section Bus.
     if is_call m drv_name mem_request then
       match s_body m with
       | [VStr 115 name; VNum 117 _] => Some name
+      | _ => None
+      end
+    else None.
+
+  (* RequestName / ReleaseName (any flags) of a name beginning with ':' *)
+  Definition colon_request_of (m : smsg) : option bytes :=
+    if is_call m drv_name mem_request then
+      match s_body m with
+      | [VStr 115 name; VNum 117 _] => if is_prefix [58] name then Some name else None
+      | _ => None
+      end
+    else if is_call m drv_name mem_release then
+      match s_body m with
+      | [VStr 115 name] => if is_prefix [58] name then Some name else None
       | _ => None
       end
     else None.
@@ -358,7 +395,7 @@ Section Bus.
             else
               match cname with
               | Some n => let m2 := set_sender m1 n in
-                          Ok b (TEmit (OClient c) (SRouted c) m2 :: map (emit_dmsg b) (driver b c m2))
+                          Ok b (TEmit (OClient c) (SRouted c AUnknown) m2 :: map (emit_dmsg b) (driver b c m2))
               | None => let m2 := set_sender m1 not_active in
                         Ok (set_conns b (remove_conn c (b_conns b)))
                            [TEmit (OClient c) SMonitors m2; TGone c]
@@ -382,6 +419,12 @@ Section Bus.
                     (* any other driver method (or a non-call, which the driver ignores); if the handler does
                        not fail, bus_dispatch goes on to bus_dispatch_matches *)
                     let m3 := if reads_args b c m2 then to_native m2 else m2 in
+                    match colon_request_of m2 with
+                    | Some _ =>
+                        (* bus_registry_acquire_service / bus_registry_release_service: "Cannot acquire / release a
+                           service starting with ':'": the handler fails, so no bus_dispatch_matches either *)
+                        Ok b [TEmit (OClient c) SMonitors m3; error_reply b c m2 err_args]
+                    | None =>
                     match request_name_of m2 with
                     | Some name =>
                         if granted b c name then
@@ -394,6 +437,7 @@ Section Bus.
                         else Ok b (TEmit (OClient c) SMonitors m3 :: map (emit_dmsg b) (driver b c m2) ++ [TEmit (OClient c) (SMatches c) m3])
                     | None =>
                         Ok b (TEmit (OClient c) SMonitors m3 :: map (emit_dmsg b) (driver b c m2) ++ [TEmit (OClient c) (SMatches c) m3])
+                    end
                     end
               end
             else
@@ -409,7 +453,8 @@ Section Bus.
                     Ok (set_held b (b_held b ++ [mkHeld d c n m2]))
                        (TEmit (OClient c) SMonitors m2 :: map (emit_dmsg b) (driver b c m2))
                   else
-                    Ok b (TEmit (OClient c) (SRouted c) m2 :: map (emit_dmsg b) (driver b c m2))
+                    let a := if is_prefix [58] d then match resolve b d with Some r => ATo r | None => ANobody end else AUnknown in
+                    Ok b (TEmit (OClient c) (SRouted c a) m2 :: map (emit_dmsg b) (driver b c m2))
               end
         end
     end.
@@ -436,7 +481,7 @@ Section Bus.
         | Some None => Ok (set_conns b (remove_conn c (b_conns b))) [TGone c]
         | Some (Some n) =>
             (* bus_connection_disconnected: owned names are released, the unique name last *)
-            Ok (mkBus (b_major b) (b_minor b) (remove_conn c (b_conns b)) (filter (fun x => negb (bytes_eqb x n)) (b_reg b))
+            Ok (mkBus (b_major b) (b_minor b) (remove_conn c (b_conns b)) (reg_drop c (b_reg b))
                       (filter (fun kv => negb (bytes_eqb (snd kv) n)) (b_owned b)) (b_held b))
                (map (emit_dmsg b) (on_disconnect b c) ++
                 [ (* bus_service_remove_owner: NameLost is addressed to the connection that is gone, so
